@@ -13,7 +13,7 @@ ROOTS = (T + "timezone::TimeZone::from_tz_data", T + "timezone::TimeZone::from_p
 def run(chk, tier):
     P = Prog("default")
     chk.configs.add("default")
-    for r in (r_absint, r_block_order, r_header_order, r_rule_boxes, r_validate, r_validate_cover, r_capacity, r_header_consts):
+    for r in (r_absint, r_block_order, r_header_order, r_rule_boxes, r_validate, r_validate_cover, r_record_layout, r_capacity, r_header_consts):
         chk.guarded(r, P, tier)
     chk.assume("that every conforming file is accepted and decoded to exactly the written transitions/types/rule is not decided (value-level)")
     return {
@@ -111,6 +111,101 @@ def r_validate(chk, P, tier):
     chk.expect(set(sites) <= allowed, "construction sites", "TimeZone struct literals outside new/utc/fixed: %s" % sorted(set(sites) - allowed))
     cs = callees(P, T + "parser::parse")
     chk.expect(TZ + "::new" in cs, "parse ends in new", "parser::parse does not build its result with TimeZone::new")
+
+
+def _lin(t):
+    """linear form of an index expression: ({atom term: coefficient}, constant); None when not linear"""
+    if t[0] in ("const", "named"):
+        c = const_of(t)
+        return ({}, c) if isinstance(c, int) and not isinstance(c, bool) else None
+    if t[0] == "field" and t[2] == 0 and t[1][0] == "bin" and t[1][1] in ("AddWithOverflow", "SubWithOverflow"):
+        t = ("bin", t[1][1][:3], t[1][2], t[1][3])
+    if t[0] == "bin" and t[1] in ("Add", "Sub"):
+        a, b = _lin(t[2]), _lin(t[3])
+        if a is None or b is None:
+            return None
+        sg = 1 if t[1] == "Add" else -1
+        d = dict(a[0])
+        for k, v in b[0].items():
+            d[k] = d.get(k, 0) + sg * v
+        return ({k: v for k, v in d.items() if v}, a[1] + sg * b[1])
+    if t[0] in ("cast", "as"):
+        return _lin(t[1]) if t[0] == "cast" else _lin(t[1])
+    return ({t: 1}, 0)
+
+
+def r_record_layout(chk, P, tier):
+    """every fixed-size record cut by chunks_exact(N) is decoded by sub-slices / byte reads that tile [0, N) exactly: no gap, no overlap,
+    each field starts where the previous one ends (boundaries compared as linear forms over the same terms)"""
+    chk.rule("LAYOUT.records", "the sub-slices and byte reads of each chunks_exact(N) record tile [0, N): transition time, local time type (4+1+1), leap second (time_size + 4)", floor=3)
+    fn = T + "parser::parse"
+    groups = {}
+    for p_ in Sym(P, fn).paths(max_paths=600):
+        for v in list(p_.env.values()) + [c for c in p_.calls] + [c[1] for c in p_.conds]:
+            for t in walk_terms(v):
+                if not isinstance(t, tuple) or not t:
+                    continue
+                base = rng = None
+                if t[0] == "call" and isinstance(t[1], str) and t[1].endswith("Index<I> for [T]>::index") and len(t[2]) == 2:
+                    base, r = t[2]
+                    if r[0] == "agg" and r[2] in ("std::ops::Range", "std::ops::RangeTo", "std::ops::RangeFrom", "std::ops::RangeFull"):
+                        kind = r[2].split("::")[-1]
+                        fs = r[4]
+                        rng = {"Range": lambda: (fs[0], fs[1]), "RangeTo": lambda: (("const", 0), fs[0]), "RangeFrom": lambda: (fs[0], None), "RangeFull": lambda: (("const", 0), None)}[kind]()
+                elif t[0] == "index":
+                    base, i = t[1], t[2]
+                    li = _lin(i)
+                    rng = (i, ("bin", "Add", i, ("const", 1))) if li is not None else None
+                if base is None or rng is None:
+                    continue
+                ch = [x for x in walk_terms(base) if isinstance(x, tuple) and x and x[0] == "call" and isinstance(x[1], str) and x[1].endswith("<impl [T]>::chunks_exact")]
+                if len(ch) != 1:
+                    continue
+                groups.setdefault(ch[0], set()).add(rng)
+    if not groups:
+        raise AnchorLost("no chunks_exact record decoding found in parser::parse")
+    names = [f["name"] for f in P.adts[T + "parser::State"]["variants"][0]["fields"]]
+    seen = {}
+    for ch, rs in groups.items():
+        src = ch[2][0]
+        fld = [x for x in walk_terms(src) if x[0] == "field"]
+        label = names[fld[0][2]] if fld and fld[0][2] < len(names) else "?"
+        n = _lin(ch[2][1])
+        ivs = []
+        okl = n is not None
+        for a, b in rs:
+            la = _lin(a)
+            lb = n if b is None else _lin(b)
+            if la is None or lb is None:
+                okl = False
+            ivs.append((la, lb))
+        ok = okl
+        cur = ({}, 0)
+        used = 0
+        while ok and used < len(ivs):
+            nxt = [iv for iv in ivs if iv[0] == cur]
+            if len(nxt) != 1:
+                ok = False
+                break
+            cur = nxt[0][1]
+            used += 1
+        ok = ok and cur == n
+        key = (label, ok)
+        if label in seen and seen[label] == ok:
+            continue
+        seen[label] = ok
+        chk.expect(ok, "record of state." + label, "the reads of a state.%s record do not tile [0, chunk size): boundaries %s, chunk size %s" % (
+            label, sorted("[%s, %s)" % (_show(a), _show(b)) for a, b in ivs), _show(n)), loc=P.loc(fn))
+    chk.expect({"transition_times", "local_time_types", "leap_seconds"} <= set(seen), "all three record kinds", "record kinds found: %s" % sorted(seen))
+
+
+def _show(l):
+    if l is None:
+        return "?"
+    parts = ["%s%s" % ("" if v == 1 else "%d*" % v, pp(k)[-24:]) for k, v in l[0].items()]
+    if l[1] or not parts:
+        parts.append(str(l[1]))
+    return "+".join(parts)
 
 
 def r_validate_cover(chk, P, tier):
